@@ -148,7 +148,7 @@ pub(crate) fn remove_or_compress_too_old_logfiles_impl(
     }
 
     for (index, file) in files.into_iter().enumerate() {
-        if index >= log_limit + compress_limit {
+        if index >= log_limit.saturating_add(compress_limit) {
             // delete (log or log.gz)
             #[cfg(flexi_logger_verif)]
             crate::verif_hooks::fs_point("cleanup_remove", &file)?;
